@@ -34,7 +34,7 @@ def have_std() -> bool:
 def header(g=True) -> str:
     h = HEADER
     if have_std():
-        h += 'From PT Require Import Lang.WriteStd Lang.ParseStd Lang.Whitespace Lang.WhitespaceStd Lang.StdDenotes Lang.StdRoundTrip.\nFrom Coq Require Import Lia.\n'
+        h += 'From PT Require Import Lang.WriteStd Lang.ParseStd Lang.Whitespace Lang.WhitespaceStd Lang.StdDenotes Lang.StdRoundTrip Lang.Transfer.\nFrom Coq Require Import Lia.\n'
     return h + ('Require Import GC12.Tables.\n' if g else '')
 
 
@@ -273,10 +273,22 @@ def agree_obligations(chk: Check, tb: dict) -> None:
                 oexprs.append(f'table_ok standard_table && std_agree_b standard_table (patch_exist {tname(e)} (Some [{ex_}]%N)) std_opts'
                               if ex_ is not None else 'false')
         oans = [a.strip() == 'true' for a in pl.eval_bools(PID, header(), oexprs, name='StatusOther')] if oexprs else []
+        # Polish tables with multi-character symbols / subscript delimiters: unique decodability (Lang/Transfer.v code_ok)
+        cexprs = [f'code_ok {tname(e)}' if e['notation'] == 'polish' else 'false' for e in others]
+        cans = [a.strip() == 'true' for a in pl.eval_bools(PID, header(), cexprs, name='StatusCode')] if cexprs else []
         proved = ['polish/text/ascii'] + (['standard/text/ascii'] if STD_RT_APPLIES else [])
-        for e, ok, ex in zip(others, oans, oexprs):
+        for e, ok, ex, cok in zip(others, oans, oexprs, cans):
             tkey = f"{e['notation']}/{e['format']}/{e['dialect']}"
             ok = ok and (e['notation'] == 'polish' or STD_RT_APPLIES)
+            if not ok and cok:
+                nm = tname(e)
+                chk.count('injectivity_by', 'proof(prefix-code transfer):' + tkey)
+                proved.append(tkey)
+                ob.append(f'Lemma obl_code_{nm} : code_ok {nm} = true.\nProof. vm_compute. reflexivity. Qed.\n'
+                          f'Theorem C12_injective_{nm} : forall s1 s2 w, roundtrippable s1 = true -> roundtrippable s2 = true ->\n'
+                          f'  write_polish {nm} s1 = Some w -> write_polish {nm} s2 = Some w -> s1 = s2.\n'
+                          f'Proof. exact (C12_write_polish_injective_code polish_table polish_ascii_w {nm} obl_agree obl_code_{nm}). Qed.\n')
+                continue
             chk.count('injectivity_by', ('proof:' if ok else 'correspondence-only:') + tkey)
             if not ok:
                 continue
@@ -512,7 +524,8 @@ def _run(chk, args) -> int:
                     'gen: C12_standard_ascii_roundtrip', 'gen: C12_standard_ascii_injective',
                     'gen: C12_standard_negid_not_roundtrip',
                     'C12_standard_roundtrip_opts', 'C12_write_standard_injective_opts', 'C12_write_stdo_default',
-                    'gen: C12_standard_ascii_roundtrip_opts', 'gen: C12_standard_ascii_injective_opts']
+                    'gen: C12_standard_ascii_roundtrip_opts', 'gen: C12_standard_ascii_injective_opts',
+                    'C12_write_polish_injective_code', 'gen: C12_injective_<table> for every table in notes.injectivity_proved_for_tables']
     rng = random.Random(args.seed)
     sents = []
     seen = set()
